@@ -229,10 +229,6 @@ def count_faults(acc, spec, out):
         if n:
             f[k] = f.get(k, 0) + n
 
-    for t in spec["tasks"]:
-        for op in t["ops"]:
-            if op["op"] == "parse" and op.get("first"):
-                pass
     for lb in _flatten(spec.get("labels", [])):
         if "eof@" in lb or "trunc" in lb:
             bump("truncate")
@@ -245,8 +241,40 @@ def count_faults(acc, spec, out):
     for k, v in st.get("fs", {}).items():
         if k in ("short_read", "open_error", "read_error"):
             bump(k, v)
-    if spec.get("cfg", {}).get("policy") == "starve":
+    cfg = spec.get("cfg", {})
+    if cfg.get("policy") == "starve":
         bump("starve")
+    if cfg.get("drop"):
+        bump("results_dropped_by_consumer")
+    if cfg.get("genclass") in ("journal", "duck"):
+        bump("user_generator_" + cfg["genclass"])
+    if spec.get("shared_generator"):
+        bump("tasks_share_one_generator")
+    for t in spec["tasks"]:
+        for op in t["ops"]:
+            k = op["op"]
+            if k == "write":
+                bump("file_rewritten_between_reads")
+            elif k == "setopts":
+                bump("options_changed_on_live_stream")
+            elif k == "tokcli":
+                bump("token_listing_script")
+            elif k == "stream":
+                if op.get("events"):
+                    bump("in_memory_source_event")
+                if op.get("also") is not None:
+                    bump("same_event_to_second_stream")
+                if op.get("reenum"):
+                    bump("source_events_re_enumerated")
+                c = op.get("consumer") or {}
+                if c.get("k") == "zip":
+                    bump("interleaved_generators_of_one_stream")
+                elif c.get("k") == "take":
+                    bump("abandon_throw" if c.get("throw") else "abandon_close" if c.get("close") else "abandon_drop")
+            for inst in (t.get("parsers") or []) + (t.get("compilers") or []):
+                pass
+        if any(i.get("late") for i in (t.get("parsers") or []) + (t.get("compilers") or [])):
+            bump("generator_wired_through_attribute")
     for k, v in st.get("faults", {}).items():
         bump(k, v)
 
